@@ -114,6 +114,7 @@ class CheckMandatory(Contract):
         m = opaque_map(ctx, g.version, g.values, o.fields["vector"], "o")
         o.fields["metrics"] = m
         o.fields["missing_metrics"] = []
+        o.assumed_state = True  # attributes set earlier in __init__ that this pre-state does not list: undecided, no AttributeError
         ctx.data["self"] = o
         ctx.data["map"] = m
         ctx.data["frozen_maps"] = [("self.metrics", m)]
